@@ -39,7 +39,9 @@ GUARDS = {
 }
 KINDS = ['Function', 'Constructor', 'Fallback', 'Receive', 'Modifier']
 VIS = [None, 'public', 'external', 'internal', 'private']
-MODS = [None, 'onlyOwner', 'only', 'whenNotPaused', 'nonlyReentrant', 'onlyOwner()', 'onlyRole(ADMIN)', 'whenNotPaused()']
+MODS = [None, 'onlyOwner', 'only', 'whenNotPaused', 'nonlyReentrant', 'onlyOwner()', 'onlyRole(ADMIN)', 'whenNotPaused()',
+        # a modifier invocation is a PATH (`Base.modifier`), and a function may carry several of them: any component of any of them counts
+        'Ownable.onlyOwner', 'Ownable.onlyOwner()', 'onlyLib.guard', 'Base.guard', 'A.B.onlyC(ADMIN)', 'nonReentrant+onlyOwner', 'onlyOwner+nonReentrant', 'nonReentrant+Base.guard']
 SHAPES = ['guard_then_kill', 'kill_then_guard', 'kill_in_if', 'guard_in_if_kill_after',
           # a second, unrelated call in front of / behind the guard: a comparison that does not mention the sender, a call without arguments
           'unrelated_comparison_then_guard_then_kill', 'guard_then_unrelated_comparison_then_kill', 'call_without_arguments_then_guard_then_kill']
@@ -65,14 +67,17 @@ def selfdestruct_file(b, kind, vis, mod, kill, guard, shape, where='contract'):
     attrs = []
     if vis:
         attrs.append(b.fattr('visibility', vis))
-    if mod:
-        # `name`, `name()` and `name(arg)` are three spellings of a modifier invocation
+    for mod in (mod.split('+') if mod else []):
+        # `name`, `name()` and `name(arg)` are three spellings of a modifier invocation; the name may be qualified
+        from ..engine import Adt, VecV
         if mod.endswith('()'):
-            attrs.append(b.fattr('modifier', mod[:-2], []))
+            nm, args = mod[:-2], []
         elif mod.endswith(')'):
-            attrs.append(b.fattr('modifier', mod[:mod.index('(')], [b.var(mod[mod.index('(') + 1:-1])]))
+            nm, args = mod[:mod.index('(')], [b.var(mod[mod.index('(') + 1:-1])]
         else:
-            attrs.append(b.fattr('modifier', mod, None))
+            nm, args = mod, None
+        base = Adt('Base', None, (b.loc(), b.path(*nm.split('.')), sol.NONE if args is None else sol.some(VecV(args))))
+        attrs.append(Adt('FunctionAttribute', 'BaseOrModifier', (b.loc(), base)))
     name = 'kill' if kind in ('Function', 'Modifier') else None
     fd = b.function(kind, name, [], attrs, b.block(stmts))
     other = fam.fn_def(b, [b.expr_stmt(b.call(b.var('require'), [b.bin('Equal', sender(b), b.var('owner'))]))], name='other')
@@ -178,6 +183,7 @@ def body(chk):
     if chk.quick:
         chk.rng.shuffle(combos)
         keep = [c for c in combos if c[0] == 'Function' and c[1] in ('public', 'external') and c[2] in (None, 'onlyOwner', 'onlyOwner()', 'onlyRole(ADMIN)')]
+        keep = [c for c in combos if c[0] == 'Function' and c[1] in ('public', 'external') and c[2] and ('.' in c[2] or '+' in c[2]) and c[4] == 'none'][:60] + keep
         two = [c for c in combos if c[5] in SHAPES[4:] and c[1] == 'public']
         combos = keep[:250] + combos[:400] + two[:90]
     for k in range(0, len(combos), 80):
